@@ -212,6 +212,9 @@ func renderLink(id, phase int, l LinkDesc, chain bool) string {
 	if l.Op == "rx" {
 		arg = "^" + arg
 	}
+	if l.Op == "rxg" {
+		op = strings.Replace(op, "@rxg", "@rx", 1)
+	}
 	if l.Op != "unconditionalMatch" {
 		op += " " + arg
 	}
@@ -343,12 +346,12 @@ var tfCoq = map[string]string{
 }
 
 var opKind = map[string]int{
-	"unconditionalMatch": 0, "beginsWith": 1, "contains": 2, "streq": 3, "eq": 4, "gt": 5, "ge": 6, "lt": 7, "le": 8, "rx": 9,
+	"unconditionalMatch": 0, "beginsWith": 1, "contains": 2, "streq": 3, "eq": 4, "gt": 5, "ge": 6, "lt": 7, "le": 8, "rx": 9, "rxg": 9,
 }
 
 func optHx(present bool, s string) string { return vh.OptionOf(present, hxs(s)) }
 
-func linkTerm(r *corazawaf.Rule, d LinkDesc) (string, error) {
+func linkTerm(c *Case, r *corazawaf.Rule, d LinkDesc) (string, error) {
 	dump := corazawaf.VerifC09Dump(r)
 	op := "None"
 	if dump.HasOperator {
@@ -366,13 +369,24 @@ func linkTerm(r *corazawaf.Rule, d LinkDesc) (string, error) {
 			return "", fmt.Errorf("operator outside the model: %q", dump.OpFunction)
 		}
 		arg := dump.OpData
-		if fn == "rx" {
-			if !strings.HasPrefix(arg, "^") {
-				return "", fmt.Errorf("rx pattern outside the model: %q", arg)
+		if d.Op == "rxg" {
+			if fn != "rx" || arg != d.OpArg {
+				return "", fmt.Errorf("rx pattern changed by the parser: %q vs %q", arg, d.OpArg)
 			}
-			arg = arg[1:]
+			tbl, err := rxTable(c, d)
+			if err != nil {
+				return "", err
+			}
+			op = fmt.Sprintf("(Some (%s, ROpRx %s, %s))", vh.List(ts), tbl, vh.Bool(dump.OpNegation))
+		} else {
+			if fn == "rx" {
+				if !strings.HasPrefix(arg, "^") {
+					return "", fmt.Errorf("rx pattern outside the model: %q", arg)
+				}
+				arg = arg[1:]
+			}
+			op = fmt.Sprintf("(Some (%s, ROp %s %s, %s))", vh.List(ts), vh.N(int64(k)), hxs(arg), vh.Bool(dump.OpNegation))
 		}
-		op = fmt.Sprintf("(Some (%s, ROp %s %s, %s))", vh.List(ts), vh.N(int64(k)), hxs(arg), vh.Bool(dump.OpNegation))
 	}
 	if dump.NumTransformations != len(d.Tfs) {
 		return "", fmt.Errorf("compiled rule has %d transformations, description %d", dump.NumTransformations, len(d.Tfs))
@@ -428,6 +442,48 @@ func linkTerm(r *corazawaf.Rule, d LinkDesc) (string, error) {
 	}
 	return fmt.Sprintf("(RL %s %s %s %s %s %s %s %s %s %s %s %s)", vh.Z(int64(r.ID_)), hxs(r.LogID_), vh.Z(int64(r.ParentID_)), op,
 		vh.List(tfs), vh.Bool(r.MultiMatch), vh.Bool(r.Capture), vh.Bool(r.HasChain), msg, ld, sev, vh.List(acts)), nil
+}
+
+// rxTable is the regexp oracle of an "rxg" link: Go's regexp package (not Coraza's operator) is run
+// on every value the link can be evaluated against (all request values under the link's
+// transformations), and for each matching value the fields rx.go is specified to hand to
+// CaptureField are listed: groups 0..9 of the pattern, "" for a group that did not participate.
+func rxTable(c *Case, d LinkDesc) (string, error) {
+	re, err := regexp.Compile("(?sm)" + d.OpArg)
+	if err != nil {
+		return "", err
+	}
+	for _, t := range d.Targets {
+		if t.Count || (t.Var != "ARGS" && t.Var != "ARGS_GET" && t.Var != "REQUEST_HEADERS") {
+			return "", fmt.Errorf("rxg link with a target whose values the harness cannot enumerate: %+v", t)
+		}
+	}
+	seen := map[string]bool{}
+	var items []string
+	for _, l := range [][][2]string{c.Args, c.Hdrs} {
+		for _, p := range l {
+			for _, v := range candValues(d.Tfs, d.Multi, p[1]) {
+				if seen[v] {
+					continue
+				}
+				seen[v] = true
+				m := re.FindStringSubmatchIndex(v)
+				if m == nil {
+					continue
+				}
+				var caps []string
+				for i := 0; i < len(m)/2 && i < 10; i++ {
+					g := ""
+					if m[2*i] >= 0 {
+						g = v[m[2*i]:m[2*i+1]]
+					}
+					caps = append(caps, fmt.Sprintf("(%s, %s)", vh.N(int64(i)), hxs(g)))
+				}
+				items = append(items, fmt.Sprintf("(%s, %s)", hxs(v), vh.List(caps)))
+			}
+		}
+	}
+	return vh.List(items), nil
 }
 
 func pairList(l [][2]string) string {
@@ -543,7 +599,7 @@ func runTx(c *Case) (string, error) {
 			if j >= len(d.Links) {
 				return "", fmt.Errorf("chain longer than described")
 			}
-			t, err := linkTerm(lr, d.Links[j])
+			t, err := linkTerm(c, lr, d.Links[j])
 			if err != nil {
 				return "", err
 			}
@@ -714,6 +770,9 @@ func Run(cfg vh.Config) (*vh.Result, error) {
 		}
 		for i := 0; i < cfg.Pick(120, 1500); i++ {
 			add(genSum(rng))
+		}
+		for i := 0; i < cfg.Pick(90, 1500); i++ {
+			add(genCap(rng))
 		}
 		for i := 0; i < cfg.Pick(360, 6000); i++ {
 			add(genRun(rng, true))
